@@ -68,17 +68,22 @@ contract(
 # ------------------------------------------------------------------------------------------------------------------
 # the two memo tables behind find(): a memoised answer equals the uncached one for *these* arguments, i.e. the key holds
 # every input the uncached computation reads.  NN / TY stand for the uncached computations (assumed to be functions of
-# exactly the listed arguments: for a name, its text and its quoted flag are all normalize_name reads of it).
+# exactly the listed arguments: for an Identifier, its text and its quoted flag; a string is parsed first, which the key records
+# as quoted = None: the same text given as a string and as an unquoted Identifier may normalise differently, e.g. "a b").
 uninterpreted("NN", 5)
 uninterpreted("TY", 2)
 uninterpreted("dkey", 1)       # schema._dialect_cache_key: type + version + strategy + settings of a Dialect instance (else the value itself)
 uninterpreted("name_of", 1)    # Identifier.name / .quoted (properties over args): functions of the node, which is not mutated here
 uninterpreted("quoted_of", 1)
 fields(_normalized_name_cache="dict", _type_mapping_cache="dict", _dialect="Dialect", quoted="bool")
-define("name_coh", "lambda s: forall(val, lambda n, q, d, t, z: implies(has(s._normalized_name_cache, (n, q, d, t, z)) and is_bool(q) and is_bool(t) and is_bool(z),"
+define("name_coh", "lambda s: forall(val, lambda n, q, d, t, z: implies(has(s._normalized_name_cache, (n, q, d, t, z)) and (is_bool(q) or q is None) and is_bool(t) and is_bool(z),"
                    " is_str(s._normalized_name_cache[(n, q, d, t, z)]) and implies(truthy(s._normalized_name_cache[(n, q, d, t, z)]),"
                    " s._normalized_name_cache[(n, q, d, t, z)] is NN(n, q, d, t, z))))")
 define("type_coh", "lambda s: forall(val, lambda x, d: implies(has(s._type_mapping_cache, (x, d)), s._type_mapping_cache[(x, d)] is TY(x, d)))")
+
+# what normalize_name reads of its first argument, stated over the ARGUMENT (not over the locals the code derives its key from)
+define("arg_text", "lambda x: x if is_str(x) else name_of(x)")
+define("arg_quoted", "lambda x: None if is_str(x) else quoted_of(x)")
 
 contract(
     S, "MappingSchema._normalize_name", props=["C18", "C15"],
@@ -86,12 +91,12 @@ contract(
     requires=["name_coh(self)", "is_bool(self.normalize)"],
     ensures=["name_coh(self)",
              # whatever the cache held, the answer is the uncached one for this very name (text + quoted flag), dialect and flags
-             "result is NN(name_str, quoted, dkey(dialect), is_table, normalize)"],
+             "result is NN(arg_text(name), arg_quoted(name), dkey(dialect), is_table, normalize)"],
     modifies=["self._normalized_name_cache{}"],
     ghost={"post_uses_final_locals": True},
     opaque={
         # assumed: the uncached computation depends on the dialect only through what the cache key records of it
-        "normalize_name": dict(returns="Identifier", ensures=["name_of(result) is NN(name_str, quoted, dkey(dialect), is_table, normalize)"]),
+        "normalize_name": dict(returns="Identifier", ensures=["name_of(result) is NN(arg_text(a0), arg_quoted(a0), dkey(dialect), is_table, normalize)"]),
         "_dialect_cache_key": dict(returns="any", pure=True, uf="dkey"),
         ".name": dict(returns="str", pure=True, uf="name_of"), ".quoted": dict(returns="bool", pure=True, uf="quoted_of"),
     },
